@@ -29,6 +29,6 @@ PROP = {
          "shards": {"quick": 10, "thorough": 16},
          "watchdog": {"quick": 900, "thorough": 5400},
          "floors": {"quick": {"oracle_release": 3000, "oracle_hostile_revocation": 300, "nontrivial": 200},
-                    "thorough": {"oracle_release": 100000}}},
+                    "thorough": {"oracle_release": 35000}}},
     ],
 }
